@@ -33,7 +33,7 @@ ASSUMPTIONS = [
     "window 0 / negative / non-integer windows are outside the quantifier (1 <= w) and not driven",
 ]
 REQUIRED = {"all": ["salted_objects", "w_eq_1", "w_eq_N", "w_gt_N_rejected", "even_windows", "odd_windows", "delta_link_checked",
-                    "user_groups", "default_groups", "invalid_group_rejected", "histidine_windows", "default_window_calls", "numpy_int_windows", "windows_ge_128_sequences", "empty_user_groups", "repeated_user_groups", "more_than_1000_windows", "user_groups_larger_than_half_the_alphabet", "profile_calls_in_shuffled_order", "more_than_10_user_groups", "default_window_on_shorter_sequence_rejected", "explicit_empty_group_list_calls"]}
+                    "user_groups", "default_groups", "invalid_group_rejected", "histidine_windows", "default_window_calls", "numpy_int_windows", "windows_ge_128_sequences", "empty_user_groups", "repeated_user_groups", "more_than_1000_windows", "user_groups_larger_than_half_the_alphabet", "profile_calls_in_shuffled_order", "more_than_10_user_groups", "default_window_on_shorter_sequence_rejected", "explicit_empty_group_list_calls", "unsigned_numpy_windows_beyond_N"]}
 LP = {"quick": 7, "thorough": 8}
 NRANDOM = {"quick": 500, "thorough": 3000}
 DEFAULT_GROUPS = ["ED", "RK", "RKED", "QNSTGHC", "ALMIV", "FYW", "P"]
@@ -167,9 +167,13 @@ def judge(case, rep, S):
             if w == N:
                 rep.cnt("w_eq_N")
         else:
+            np_ = S["np"]
             for name, fn, _ in fns:
                 try:
-                    r = fn(w)
+                    wform = rng.choice([w, w, np_.int64(w), np_.uint8(w) if w < 256 else w, np_.uint16(w) if w < 65536 else w, np_.uint32(w), np_.int8(w) if w < 128 else w])
+                    if type(wform).__name__.startswith("uint"):
+                        rep.cnt("unsigned_numpy_windows_beyond_N")
+                    r = fn(wform)
                 except Exception:
                     rep.cnt("w_gt_N_rejected")
                 else:
